@@ -412,3 +412,12 @@ pub struct ServerSnapshot {
     pub analysis: Analysis,
     pub vfs: Arc<RwLock<Vfs>>,
 }
+
+/// Verification hook H2b: the salsa snapshot (`analysis`) is released right after this point, wherever
+/// the `ServerSnapshot` ends up being dropped.
+#[cfg(tablegen_lsp_verif)]
+impl Drop for ServerSnapshot {
+    fn drop(&mut self) {
+        verif::verif_sync("task.snapshot_drop");
+    }
+}
